@@ -75,7 +75,7 @@ func genHistory(t *rapid.T, k HistKnobs) *Script {
 			if rapid.IntRange(0, 9).Draw(t, "damaged") == 0 {
 				m = damage(t, m)
 			} else if rapid.IntRange(0, 19).Draw(t, "seqText") == 0 {
-				m.Seq = rapid.SampledFrom([]string{"abc", "1x", "0x10"}).Draw(t, "seqTextVal") // unparsable MsgSeqNum
+				m.Seq = rapid.SampledFrom([]string{"abc", "1x", "0x10", "", "-", "99999999999999999999"}).Draw(t, "seqTextVal") // unparsable MsgSeqNum
 			}
 			if k.NoGoodLogon {
 				if v, _ := LogonVerdict(&cfg, m); v == "ok" || cfg.Role == "initiator" {
@@ -93,7 +93,11 @@ func genHistory(t *rapid.T, k HistKnobs) *Script {
 			add(rig.Step{Op: "in", In: g.logout()})
 			g.logged = false
 		case kind < 46:
-			add(rig.Step{Op: "in", In: g.heartbeat("")})
+			hbID := ""
+			if rapid.IntRange(0, 2).Draw(t, "hbWithID") == 0 {
+				hbID = rapid.SampledFrom([]string{"1", "x", "TEST"}).Draw(t, "hbID") // a Heartbeat that claims to answer a TestRequest
+			}
+			add(rig.Step{Op: "in", In: g.heartbeat(hbID)})
 		case kind < 56:
 			id, _ := genTestReqID(t)
 			add(rig.Step{Op: "in", In: g.testRequest(id)})
